@@ -13,7 +13,7 @@ for d in seeded/$pat/; do
   prop=$(python3 -c "import json,sys; m=json.load(open('$d/meta.json')); print(m.get('check') or m['property'])")
   wt=/tmp/seedreg-$$-$id
   git -C /repo worktree add -q --detach $wt HEAD || { echo "$id: worktree failed"; continue; }
-  if ! git -C $wt apply $d/patch.diff 2>/dev/null; then
+  if ! git -C $wt apply /verif/$d/patch.diff 2>/dev/null; then
     echo "$id: NOAPPLY (patch does not apply to HEAD: the change is already in the tree as a repair, or the code moved)"
     git -C /repo worktree remove --force $wt; continue
   fi
